@@ -24,11 +24,11 @@ CONSTANTS Accts,      \* {"r1","r2","tss","out"}
           Chains,     \* {"one","two","tss"}
           Methods,    \* privileged contract methods
           Paths,      \* call paths of an unprivileged caller
-          MaxSeq, MaxUpd
+          MaxSeq, MaxUpd,
+          Counter(_, _)   \* Counter(r, c): the counterparty address registered for relayer r on chain c (distinct per pair)
 
 TssChain == "tss"
 TssAcct == "tss"
-Counter(r, c) == <<r, c>>        \* the address registered for relayer r on chain c (distinct per pair)
 
 VARIABLES reg,       \* reg[a] = set of chains account a is registered for
           upd,       \* upd[c] = number of accepted updates of client c
@@ -65,8 +65,10 @@ RecvEff(a, c, seq) ==
        /\ ackrel' = (<<c, seq>> :> Counter(a, c)) @@ ackrel
        /\ UNCHANGED <<reg, upd, sent, acked, paid, priv>>          \* privileged call data has no privileged effect
   ELSE UNCHANGED stateVars
-Recv(a, c, seq, call) == seq \in 1..MaxSeq /\ RecvEff(a, c, seq)
-                         /\ last' = [act |-> "Recv", res |-> Res(RecvOK(a, c, seq)), signer |-> a, chain |-> c, seq |-> seq, call |-> call]
+(* pf: what the sender put into the proof field ("junk" or the TSS account's address as bytes): it never matters for *)
+(* a TSS client, whose proof is the signer                                                                          *)
+Recv(a, c, seq, call, pf) == seq \in 1..MaxSeq /\ RecvEff(a, c, seq)
+                         /\ last' = [act |-> "Recv", res |-> Res(RecvOK(a, c, seq)), signer |-> a, chain |-> c, seq |-> seq, call |-> call, proof |-> pf]
 
 Send == /\ sent < MaxSeq /\ sent' = sent + 1 /\ UNCHANGED <<reg, upd, rcpt, ackrel, acked, paid, priv>>
         /\ last' = [act |-> "Send", res |-> "ok"]
@@ -79,17 +81,18 @@ AckEff(a, seq, rel) ==
   THEN /\ acked' = acked \cup {seq} /\ paid' = (seq :> CHOOSE r \in Payee(rel) : TRUE) @@ paid
        /\ UNCHANGED <<reg, upd, rcpt, ackrel, sent, priv>>
   ELSE UNCHANGED stateVars
-Ack(a, seq, rel) == AckEff(a, seq, rel) /\ last' = [act |-> "Ack", res |-> Res(AckOK(a, seq, rel)), signer |-> a, seq |-> seq, rel |-> rel]
+Ack(a, seq, rel, pf) == AckEff(a, seq, rel) /\ last' = [act |-> "Ack", res |-> Res(AckOK(a, seq, rel)), signer |-> a, seq |-> seq, rel |-> rel, proof |-> pf]
 
 (* a privileged method called by something that is not the chain's module: never any effect *)
 Priv(path, m) == UNCHANGED stateVars /\ last' = [act |-> "Priv", res |-> "err", path |-> path, method |-> m]
 
-Rels == {Counter(r, TssChain) : r \in Accts} \cup {<<"nobody", "tss">>}
+Proofs == {"junk", "tssaddr"}
+Rels == {Counter(r, TssChain) : r \in Accts} \cup {Counter("nobody", TssChain)}
 Next == \/ \E a \in Accts, cs \in SUBSET Chains : Register(a, cs)
         \/ \E a \in Accts, c \in Chains : Update(a, c)
-        \/ \E a \in Accts, c \in Chains, s \in 1..MaxSeq, m \in Methods \cup {"none"} : Recv(a, c, s, m)
+        \/ \E a \in Accts, c \in Chains, s \in 1..MaxSeq, m \in Methods \cup {"none"}, pf \in Proofs : Recv(a, c, s, m, pf)
         \/ Send
-        \/ \E a \in Accts, s \in 1..MaxSeq, rel \in Rels : Ack(a, s, rel)
+        \/ \E a \in Accts, s \in 1..MaxSeq, rel \in Rels, pf \in Proofs : Ack(a, s, rel, pf)
         \/ \E p \in Paths, m \in Methods : Priv(p, m)
 Spec == Init /\ [][Next]_vars
 
